@@ -342,13 +342,13 @@ def replay_violation(P, native, v, scratch):
     confirmed = False
     for seed in [0, 1, 2, 3, 5, 8, 13, 21]:
         try:
-            res, rc, err = native.run([('replay', ncs)], seed=seed, timeout=60)
+            res, rc, err = native.run([('replay', ncs)], seed=seed, timeout=60, eager=True)
         except subprocess.TimeoutExpired:
             how.append('native seed %d: timeout' % seed)
             continue
         nt = scr.normalise(res.get('replay', {}).get('trace', []))
         bad = [t for t in nt if t[0] == 'raw' and 'CANARY-BAD' in t[1]]
-        crashed = rc != 0 or 'replay' not in res or res['replay']['end'] is None
+        crashed = rc != 0 or 'replay' not in res or res['replay'].get('end') is None
         if is_mem or latent_mem:
             if crashed or bad or (['uncaught-panic'] in nt and ['uncaught-panic'] not in model_trace):
                 confirmed = True
@@ -378,7 +378,7 @@ def replay_violation(P, native, v, scratch):
         if out3[0] in ('violation', 'ub') and len(mt) > 0:
             for seed in [0, 1, 2, 3]:
                 try:
-                    res, rc, err = native.run([('replay', cs)], seed=seed, timeout=60)
+                    res, rc, err = native.run([('replay', cs)], seed=seed, timeout=60, eager=True)
                 except subprocess.TimeoutExpired:
                     continue
                 nt = scr.normalise(res.get('replay', {}).get('trace', []))
